@@ -117,6 +117,12 @@ SOUP_TOKENS += [c for c in "!\"#$%&'()*+,-./:;<=>?@[\\]^_`{|}~"]  # every ASCII 
 SOUP_TOKENS += [".macro fill(n) {\n .db n\n fill(n + 1)\n fill(n + 1)\n}\nfill(0)", ".macro ping() {\n pong()\n pong()\n}\n.macro pong() {\n ping()\n ping()\n}\nping()", ".macro spin() {\n nop\n spin()\n spin()\n spin()\n}\nspin()", ".macro dz(b) {\n {{ b }}\n {{ b }}\n}\ndz({\n dz({\n nop\n })\n})", ".include 'missing_zq.s'", ".include 'sub/missing_zq.s'", ".include 'other.s'", ".incbin 'missing_zq.bin'", ".table 'zoo.tbl'\n.text 'AB[0x40'", ".table 'zoo.tbl'\n.text '[0x40]A[0x41'", ".table 'zoo.tbl'\n.text '[0x'", ".table 'zoo.tbl'\n.text 'A]B[C'", ".table 'zoo.tbl'\n.text '[0xZZ]'", ".table 'zoo.tbl'\n.text ''", ".macro cy(a) {\n {{ a }}\n}\ncy({\n {{ a }}\n})", ".macro cz(a, b) {\n {{ a }}\n}\ncz({\n {{ b }}\n}, {\n {{ a }}\n})", "{\n {\n .text 'AB'\n }\n}", ".macro r() {\n r()\n}\nr()", ".macro ra() {\n rb()\n}\n.macro rb() {\n ra()\n}\nra()", ".macro q(b) {\n {{ b }}\n}\nq({\n q({\n nop\n})\n})", "{ { { { { { { {", "( ( ( ( ( ( (", "lda ((((((((1", "lda #-1", "lda -1", "#-1", "-1", ".ascii 'a fairly long string, never closed, with enough characters", "'" + "x" * 40, "lda #1 %", "lda (", "lda [", "lda #(", "lda.w #A %", ".db 1 %", "'main.s'", ".include 'main.s'", "a.b.c", "a..b", "0x", "0b", "0o7", "1e5", "lda.", "lda.w", ".", "..", ".db", ".db ,", ",,", "{{ x", "x }}", "*=", "@= 1", "x :=", "x =", "m(,)", "m((", "))"]
 
 
+# the experimental .struct / .istruct directives, well formed and not
+SOUP_TOKENS += [".struct h {", ".struct h { id }", ".struct h { bytes id }", ".struct h { byte byte id }", ".struct h { byte id", ".struct h {\n byte id\n word w\n}", ".struct h { 1 }", ".struct h { nop }", ".struct h { .db }", ".struct { }", ".struct h { }", ".struct h {\n ; c\n}", ".struct h { byte }", ".struct h { word id, }", ".istruct h {", ".istruct h { id = 1 }", ".istruct h { 1 }"]
+# names re-bound from their own value (label, ':=' variable, macro argument, incbin size symbol, plain symbol)
+SOUP_TOKENS += ["lbl:\nlbl = lbl + 1", "c := 0\nc = c + 1", "c := 0\nc := c + 1", ".macro emit(n) {\n n = n + 1\n .db n\n}\nemit(1)", "a = 1\na = a + 1", "a = a + 1", "a = b\nb = a", "a = b + 1\nb = a + 1\n.db a", "a := a", ".incbin 'zoo.bin'\nzoo_bin__size = zoo_bin__size + 1", "l1:\nl1:\n", "l2:\nl2 = 5\n.dw l2", "{\n x = x + 1\n}", ".scope s {\n s = s + 1\n}", ".for k := 0, 3 {\n k = k + 1\n}", ".for k := 0, 3 {\n k := k - 1\n}"]
+
+
 def lexical_bucket(text: bytes, at: int) -> str:
     """Rough lexical construct of the original text at byte offset `at`."""
     s = text.decode("utf-8", "replace") if isinstance(text, bytes) else text
@@ -335,8 +341,8 @@ def soup_workload(rng: random.Random) -> dict[str, Any]:
     text = sep.join(rng.choice(SOUP_TOKENS) for _ in range(n))
     if rng.random() < 0.5:
         text = "*=0x008000\n" + text
-    files = {"main.s": text.encode("utf-8"), "zoo.tbl": b"41=A\n42=B\n43=C\n", "other.s": b"nop\n"}
-    return {"files": files, "roles": {"main.s": "source", "zoo.tbl": "table", "other.s": "include"}, "mapping": "low", "target": "main.s", "name": "soup"}
+    files = {"main.s": text.encode("utf-8"), "zoo.tbl": b"41=A\n42=B\n43=C\n", "other.s": b"nop\n", "zoo.bin": b"\x01\x02\x03"}
+    return {"files": files, "roles": {"main.s": "source", "zoo.tbl": "table", "other.s": "include", "zoo.bin": "incbin"}, "mapping": "low", "target": "main.s", "name": "soup"}
 
 
 def gen_case(cseed: int, tier: str) -> dict[str, Any]:
